@@ -282,8 +282,25 @@ func TestVerifC18(t *testing.T) {
 				c.note("restart", nil)
 			}
 		}
-		for j := 0; j < nops && c.viol == ""; j++ {
-			k := r.pick(10, 4, 4, 4, 5, 3, 3, 3, 2)
+		// corpus 1: an event waits (publishes fail), snapshot with a long trailing log, restart, publishes work again.
+		// corpus 2: one event waits and is being retried, snapshot that compacts its entry, publishes work again.
+		var forced []int
+		forcedTrailing, forcedRestart := int64(-1), false
+		if id == 1 {
+			forced, forcedTrailing, forcedRestart = []int{0, 5, 0, 9, 5}, 10240, true
+			quiescent = true
+		} else if id == 2 {
+			forced, forcedTrailing = []int{0, 5, 0, 9, 5}, 0
+			quiescent = true
+		}
+		for j := 0; j < nops+len(forced) && c.viol == ""; j++ {
+			k := r.pick(10, 4, 4, 4, 5, 3, 3, 3, 2, 3)
+			if len(forced) > 0 {
+				k = forced[0]
+				forced = forced[1:]
+			} else {
+				forcedTrailing, forcedRestart = -1, false
+			}
 			var err error
 			name := fmt.Sprintf("a%d", r.intn(nstream+1))
 			switch k {
@@ -353,6 +370,51 @@ func TestVerifC18(t *testing.T) {
 				}
 				serr := rn.Snapshot().Error()
 				c.note("snapshot", vM{"ok": serr == nil})
+			case 9:
+				// a Raft snapshot while events wait to be published. With enough trailing log nothing they
+				// need is compacted: a dispatcher that starts later (restart, promotion) finds them in the log.
+				// With no trailing log and exactly one event waiting -- the one the dispatcher has read and
+				// is retrying, holding the entry in memory -- that event is still published once publishes work.
+				if !c.blocked {
+					continue
+				}
+				c.scanLog()
+				pending := 0
+				lpNow := c.srv.s.activity.LastPublishedRaftIndex()
+				for i, e := range c.history {
+					if i > lpNow && vC18IsEvent(e["op"].(string)) {
+						pending++
+					}
+				}
+				if pending == 0 {
+					continue
+				}
+				time.Sleep(500 * time.Millisecond) // the dispatcher is woken by the commit: it has read the first waiting entry
+				trailing := uint64(10240)
+				if pending == 1 && r.intn(2) == 0 {
+					trailing = 0
+				}
+				if forcedTrailing >= 0 {
+					trailing = uint64(forcedTrailing)
+					if trailing == 0 && pending != 1 {
+						continue
+					}
+				}
+				rn := srv.s.getRaft()
+				rn.ReloadConfig(raft.ReloadableConfig{TrailingLogs: trailing, SnapshotInterval: time.Hour, SnapshotThreshold: 1 << 30, HeartbeatTimeout: time.Second, ElectionTimeout: time.Second})
+				serr := rn.Snapshot().Error()
+				c.note("snapshot-while-waiting", vM{"ok": serr == nil, "pending": pending, "trailing": trailing})
+				if trailing > 0 && (r.intn(2) == 0 || forcedRestart) {
+					c.scanLog()
+					if e := srv.restart(); e != nil {
+						c.violation("restart-failed", e.Error())
+						break
+					}
+					c.blocked = false
+					c.afterRestart()
+					c.block(true)
+					c.note("restart", nil)
+				}
 			default:
 				c.scanLog()
 				wasBlocked := c.blocked
